@@ -238,3 +238,79 @@ def dirichlet(kind, v, t, f, g):
         return float(np.sum(area * np.einsum("ij,ij->i", tri_grad(v, t, f), tri_grad(v, t, g))))
     _, det = tet_geom(v, t)
     return float(np.sum(np.abs(det) / 6 * np.einsum("ij,ij->i", tet_grad(v, t, f), tet_grad(v, t, g))))
+
+
+# ---------------------------------------------------------------------------------------------------------------------------
+# meshes far beyond the reach of the executable model (half a million elements, element counts that are not multiples of small
+# numbers): the statements the theorems make about the matrices are evaluated on the implementation's output directly
+
+def huge_meshes():
+    gv, gt = gen.grid(500, 500)
+    gv = np.array(gv, float); gv[:, 2] = 0.3 * np.sin(0.05 * gv[:, 0]) * np.cos(0.07 * gv[:, 1])
+    gt = np.array(gt)
+    # one ear triangle on the boundary edge between the first two vertices of the grid: odd triangle count, one vertex with a single triangle
+    a, b = int(gt[0][0]), int(gt[0][1])
+    ear = np.array([[b, a, len(gv)]])
+    gv2 = np.vstack([gv, (gv[a] + gv[b]) / 2 + np.array([0.0, -0.7, 0.1])])
+    yield "tri", gv2, np.vstack([gt, ear]), "grid500+ear"
+    cv, ct = gen.cube_grid(45, 45, 45)
+    cv = np.array(cv, float); ct = np.array(ct)
+    ct = ct[:-1]             # element count not divisible by 2, 3
+    used = np.unique(ct)
+    if len(used) == len(cv):
+        yield "tet", cv, ct, "kuhn45-1"
+
+
+def huge_postconditions(which, stats=None):
+    """which: 'stiffness' | 'mass'.  Returns failures (symmetry, row sums / total measure, lumped = row sums of the full matrix)."""
+    fails = []
+    for kind, v, t, name in huge_meshes():
+        cls = TriaMesh if kind == "tri" else TetMesh
+        case = dict(kind=kind, name="huge:" + name, input_class="huge", nv=len(v), nt=len(t))
+        try:
+            with core.quiet():
+                full = Solver(cls(v, t), lump=False)
+                lumped = Solver(cls(v, t), lump=True)
+        except Exception as e:  # noqa: BLE001
+            fails.append(core.Failure("correspondence", "huge mesh postconditions (%s)" % which, "raised %s: %s" % (type(e).__name__, str(e)[:100]), case)); continue
+        if stats is not None:
+            stats.case("huge" + name + which, cls=["class:huge:" + name, "postconditions-only"], sample=dict(name=name, n_elements=len(t)))
+            stats.monitor("huge meshes (%d+ elements): matrix postconditions evaluated" % 400000)
+        if kind == "tri":
+            meas = 0.5 * np.linalg.norm(np.cross(v[t[:, 1]] - v[t[:, 0]], v[t[:, 2]] - v[t[:, 0]]), axis=1)
+        else:
+            e = v[t[:, 1:]] - v[t[:, :1]]
+            meas = np.abs(np.einsum("ij,ij->i", np.cross(e[:, 0], e[:, 1]), e[:, 2])) / 6.0
+        nper = t.shape[1]
+        vert_meas = np.bincount(t.reshape(-1), np.repeat(meas / nper, nper), minlength=len(v))
+        if which == "mass":
+            B, BL = full.mass.astype(float), lumped.mass.astype(float)
+            rows = np.asarray(B.sum(axis=1)).ravel()
+            bad = None
+            if abs(B - B.T).max() > 1e-12 * abs(B).max():
+                bad = "full mass matrix not symmetric"
+            elif np.max(np.abs(rows - vert_meas)) > 1e-9 * vert_meas.max():
+                bad = "row sums of the full mass matrix differ from the vertex areas/volumes (max dev %.3g at a vertex of measure %.3g)" % (
+                    np.max(np.abs(rows - vert_meas)), vert_meas[np.argmax(np.abs(rows - vert_meas))])
+            elif np.max(np.abs(BL.diagonal() - rows)) > 1e-9 * vert_meas.max():
+                bad = "lumped matrix is not the diagonal of the row sums of the full matrix"
+            elif (B.data <= 0).any():
+                bad = "non-positive stored entry"
+        else:
+            A = full.stiffness.astype(float)
+            rows = np.asarray(A.sum(axis=1)).ravel()
+            sc = abs(A).max()
+            bad = None
+            if abs(A - A.T).max() > 1e-12 * sc:
+                bad = "stiffness matrix not symmetric"
+            elif np.max(np.abs(rows)) > 1e-9 * sc:
+                bad = "stiffness matrix does not annihilate constants (max row sum %.3g)" % np.max(np.abs(rows))
+            elif abs(A - lumped.stiffness.astype(float)).max() > 0:
+                bad = "stiffness depends on lump"
+            else:
+                x = np.sin(0.37 * np.arange(len(v)))
+                if x @ (A @ x) < -1e-9 * sc * len(v):
+                    bad = "negative energy"
+        if bad:
+            fails.append(core.Failure("correspondence", "huge mesh postconditions (%s)" % which, "%s: %s" % (name, bad), case))
+    return fails
